@@ -23,6 +23,7 @@
 //!              The default-argument and initialiser dependencies are read off the typed IR by a walker of our own
 //!              (`ir_deps`), not taken from the usage analysis under test.
 mod sem;
+mod text;
 mod vec;
 
 use crate::util::*;
